@@ -113,7 +113,11 @@ CLAIMED = {
                  "number of rays), which a mirrored row needs to equal the directly computed one; (f) the constructor's decision which symmetry switches survive "
                  "(two statement kernels + lemma, float conditions nondeterministic): the class invariant used by (c) and by C06 holds for every "
                  "constructed object, TOF data keeps only the z-shift symmetry. Not decided: equality of float row values beyond that, non-negativity, the axial coordinate staying inside the image (float-derived "
-                 "q / z_shift), that the image transform is the geometric counterpart of the bin transform, clear_cache/set_up."),
+                 "q / z_shift), that the image transform is the geometric counterpart of the bin transform. "
+                 "(g) set-up history: ProjMatrixByBin::clear_cache leaves every [view][segment] bucket empty (loop contracts, ghost bucket); the cache part of "
+                 "ProjMatrixByBin::set_up recycles the collection before resizing it, so no row survives a set_up; ProjMatrixByBinUsingRayTracing::set_up returns early "
+                 "only when it was set up before with the same projection data info, voxel size, origin, minimum and maximum image index, and clears the cache and sets already_setup on "
+                 "every other path - rows served after setting the matrix up for another geometry were computed for it."),
         "note": ("assumed contracts: calculate_proj_matrix_elems_for_one_bin, apply_tof_kernel, SymmetryOperation::transform_proj_matrix_elems_for_one_bin, "
                  "std::unordered_map; rows are abstract ids in (b); the virtual dispatch over the 16 operation classes is a generated switch "
                  "(class list and constructor parameter order scraped and checked); flag normalisation of the constructor (90 => 180, view counts, "
@@ -153,7 +157,7 @@ CLAIMED = {
                  "threshold_min_to_small_positive_value every element of a NaN-free denominator is strictly positive. (d) the dataflow of the additive update for one voxel (statement kernel; float operations logged, not evaluated): "
                  "numerator = gradient * num_subsets, divided once by the thresholded denominator (stored one, or precomputed + 2 * prior curvature computed at the first "
                  "sub-iteration of a run or at every sub-iteration), times the relaxation, added to the image - each step once, in this order, nothing else. "
-                 "Not decided: the values of gradient, curvature and precomputed denominator (virtual objective-function calls), restart equivalence with a prior."),
+                 "Not decided: the values of gradient, curvature and precomputed denominator (virtual objective-function calls); restart equivalence beyond the schedule and the divisor choice (fill_nonidentifiable_target_parameters)."),
         "note": ("trusted: cbmc 6.11.0 MiniSat; iterators are pointers into one float array; static facts are syntactic scans; the shape "
                  "alpha/(1+gamma*n) of the relaxation statement is matched by the extraction rule"),
     },
@@ -161,10 +165,12 @@ CLAIMED = {
         "text": ("partial - border clause only: for every one of the 45 neighbourhood-bound sites in Quadratic/RelativeDifference/"
                  "Logcosh priors the extracted bound expressions satisfy, for all ints (|.|<2^28): every visited offset d addresses "
                  "a voxel inside the image and a weight inside the weights array, and every in-image neighbour inside the weights' "
-                 "support is visited (soundness + completeness; loop-free full-domain proof). Not decided: derivative relations, "
+                 "support is visited (soundness + completeness; loop-free full-domain proof); in the loop bodies of compute_value / compute_gradient / compute_Hessian / "
+                 "accumulate_Hessian_times_input every subscript triple of image, kappa and weights is an obligation (K_c09idx_<class>): centre (z,y,x), neighbour "
+                 "(z+dz,y+dy,x+dx) with the same offsets that subscript the weights, kappa read at exactly these two voxels. Not decided: derivative relations, "
                  "Hessian symmetry/PSD, scaling, PLSPrior."),
         "note": ("trusted: cbmc 6.11.0; the loops over dz/dy/dx and the index triples [z+dz][y+dy][x+dx] are matched syntactically "
-                 "(counted static facts), not proved; operand renaming rules of props/c09.py"),
+                 "by the extraction (anchors), their subscripts are obligations; operand renaming rules of props/c09.py"),
     },
     "C20": {
         "text": ("partial - the index maps of the detector-pair ('fan') representation (ML_norm.cxx): (a) FanProjData::is_in_data is true exactly for the "
